@@ -200,7 +200,7 @@ pub fn oracle(c: &Case, probe: &mut Probe) -> Result<(), Fail> {
     Ok(())
 }
 
-fn strategy(max_n: usize) -> BoxedStrategy<Case> {
+pub fn strategy(max_n: usize) -> BoxedStrategy<Case> {
     (prop_oneof![3 => 0usize..=8, 2 => 0usize..=max_n])
         .prop_flat_map(|n| {
             let key = prop_oneof![3 => 0i64..4, 2 => -100i64..100, 1 => any::<i64>()];
